@@ -12,8 +12,8 @@ Msgs == { [t |-> t, l |-> Addr(n, i, p), r |-> Addr(n, j, q), len |-> 0, fields 
             t \in {"hello", "eof"}, n \in Nets, i \in IPs, j \in IPs, p \in PortsSet, q \in PortsSet }
    \cup { [t |-> t, l |-> Addr(n, i, p), r |-> Addr(n, "10.0.0.1", 65535), len |-> k, fields |-> 0] :
             t \in {"tcp", "udp"}, n \in Nets, i \in IPs, p \in {0, 65535}, k \in Lens }
-   \cup { [t |-> "handshake", l |-> Zero, r |-> Zero, len |-> k, fields |-> f] : k \in {0, 20, 299}, f \in {0, 5, 40} }
-   \cup { [t |-> "response", l |-> Addr("tcp", i, p), r |-> Zero, len |-> 0, fields |-> f] : i \in IPs, p \in {0, 65535}, f \in {0, 1, 3, 20} }
+   \cup { [t |-> "handshake", l |-> Zero, r |-> Zero, len |-> k, fields |-> f] : k \in {0, 20, 299}, f \in {0, 5, 40, 4088, 4089, 4090, 4091, 4092, 4093, 4094, 5000, 20000} }   \* fields = length of the version string
+   \cup { [t |-> "response", l |-> Addr("tcp", i, p), r |-> Zero, len |-> 0, fields |-> f] : i \in IPs, p \in {0, 65535}, f \in {0, 1, 3, 20, 190, 194, 195, 196, 197, 200, 255} }
    \cup { [t |-> "ping", l |-> Zero, r |-> Zero, len |-> 0, fields |-> 0] }
 Init == m = [t |-> "none"] /\ done = FALSE
 Next == /\ ~done /\ \E x \in Msgs : m' = x
